@@ -410,8 +410,14 @@ func checkInput(l *liveFixture, c Case, idx, v int, data []byte, label string) e
 	case g.panicked != nil:
 	case res.Err != nil:
 		classes = append(classes, "rejected")
+		if label == "valid" {
+			classes = append(classes, "valid-rejected-"+t.Name)
+		}
 	default:
 		classes = append(classes, "accepted")
+		if label == "valid" {
+			classes = append(classes, "valid-accepted")
+		}
 	}
 	if res.Gate {
 		classes = append(classes, "gate-"+t.Name)
